@@ -6,7 +6,8 @@ EXTENDS Libec, Json
 CONSTANTS Slots,       \* abstract client-side handles, e.g. {1,2,3}
           MaxDepth,    \* longest history explored
           WithApi,     \* TRUE: encode/decode/cleanup ownership actions as well
-          EmitPaths    \* TRUE: print one history per transition
+          EmitPaths,   \* TRUE: print one history per transition
+          WithFaults   \* TRUE: backend operations may fail (C17): the failing call is an action of its own
 MinIntModel == -2
 VARIABLES st, slot, hist, lastRc
 vars == <<st, slot, hist, lastRc>>
@@ -67,15 +68,40 @@ DecClean(s) ==
    /\ LET x == slot[s]  cls == ExpectDecClean(st, x)  rc == IF cls = "ok" THEN 0 ELSE -1
       IN st' = DecCleanEffect(st, x, s, rc, TRUE) /\ lastRc' = rc /\ Rec([op |-> "dec_cleanup", s |-> s, exp |-> cls])
    /\ UNCHANGED slot
+\* ---- a backend operation reports failure (C17): negative result, nothing owed, state exactly as before, and the
+\* ---- actions that follow (any of the above) behave normally because the state is unchanged
+CreateFail(s, ci) ==
+   /\ WithFaults /\ slot[s] \notin Live(st) /\ ~MustRefuseCreate(Cfgs[ci])
+   /\ LET e == ExpectCreate(st, Cfgs[ci], TRUE)
+      IN st' = CreateEffect(st, Cfgs[ci], -1) /\ lastRc' = -1
+         /\ Rec([op |-> "create_fail", s |-> s, ci |-> ci, cfg |-> Cfgs[ci], exp |-> e.cls])
+   /\ UNCHANGED slot
+EncodeFail(s) ==
+   /\ WithFaults /\ WithApi /\ slot[s] \in Live(st) /\ <<slot[s], s>> \notin st.owedE
+   /\ LET cls == ExpectEncode(st, slot[s], 0, TRUE)
+      IN st' = EncodeEffect(st, slot[s], s, -1) /\ lastRc' = -1 /\ Rec([op |-> "encode_fail", s |-> s, be |-> st.live[slot[s]].be, exp |-> cls])
+   /\ UNCHANGED slot
+DecodeFail(s, what) ==
+   /\ WithFaults /\ WithApi /\ slot[s] \in Live(st) /\ <<slot[s], s>> \in st.owedE /\ <<slot[s], s>> \notin st.owedD
+   /\ LET cls == IF what = "decode" THEN ExpectDecode(st, slot[s], 0, 0, 99, 99, TRUE, TRUE, TRUE)
+                 ELSE ExpectRecon(st, slot[s], 0, 0, 0, 99, 99, TRUE, TRUE, TRUE)
+      IN st' = DecodeEffect(st, slot[s], s, -1) /\ lastRc' = -1
+         /\ Rec([op |-> what \o "_fail", s |-> s, be |-> st.live[slot[s]].be, exp |-> cls])
+   /\ UNCHANGED slot
 Next == /\ Len(hist) < MaxDepth
         /\ \/ \E s \in Slots, ci \in 1..Len(Cfgs) : Create(s, ci)
            \/ \E s \in Slots : Destroy(s) \/ Encode(s) \/ EncClean(s) \/ Decode(s, "tol") \/ Decode(s, "few") \/ DecClean(s)
            \/ \E v \in {0, -1, MaxInt} : DestroyRaw(v)
+           \/ \E s \in Slots, ci \in 1..Len(Cfgs) : CreateFail(s, ci)
+           \/ \E s \in Slots : EncodeFail(s) \/ DecodeFail(s, "decode") \/ DecodeFail(s, "recon")
 Spec == Init /\ [][Next]_vars
 
 \* ---- properties (C14, C16, C13) ----
 InvDesc == DescPositiveUnique(st)
 InvOwed == OwedOnlyOnLive(st)
+\* C17: a call whose backend operation failed is a failed call
+FaultIsError == [][(Len(hist') > Len(hist) /\ hist'[Len(hist')].op \in {"create_fail", "encode_fail", "decode_fail", "recon_fail"})
+                    => (lastRc' < 0 /\ st' = st /\ hist'[Len(hist')].exp = "neg")]_vars
 FailedCallChangesNothing == [][lastRc' < 0 => st' = st]_vars
 \* a successful create never returns a descriptor that is live in the state before the call
 FreshDesc == [][\A d \in Live(st') \ Live(st) : d \notin Live(st) /\ d >= 1]_vars
